@@ -1575,7 +1575,7 @@ class ConstrainedQuadraticModel(cyConstrainedQuadraticModel):
 
     def remove_variable(self, v: Variable):
         for label in self.discrete:
-            if v in self.constraints[label].variables:
+            if v in self.constraints[label].lhs.variables:
                 # todo: support this
                 raise ValueError("cannot remove a variable used in a discrete constraint")
 
